@@ -33,4 +33,6 @@ MUTANTS = [
     m("c07-seed-cached-omega", "R5", "    def h2_flow(self, state: ChainState, dt: ScalarLike) -> None:\n        omega = 1.0 / self.metric.eigval**0.5", "    def _omega(self):\n        if self._om is None:\n            self._om = 1.0 / self.metric.eigval**0.5\n        return self._om\n\n    def h2_flow(self, state: ChainState, dt: ScalarLike) -> None:\n        omega = self._omega()"),
     m("c07-twin-omega-form", None, "    def h2_flow(self, state: ChainState, dt: ScalarLike) -> None:\n        omega = 1.0 / self.metric.eigval**0.5", "    def h2_flow(self, state: ChainState, dt: ScalarLike) -> None:\n        omega = self.metric.eigval**-0.5", twin=True),
     m("c07-twin-kick-form", None, "        state.mom -= dt * self.dh1_dpos(state)", "        state.mom = state.mom - self.dh1_dpos(state) * dt", twin=True),
+    m("c07-isotropic-fast-path-sequential", "R2", "        sin_omega_dt, cos_omega_dt = np.sin(omega * dt), np.cos(omega * dt)\n        eigvec_trans_pos = self.metric.eigvec.T @ state.pos\n", "        sin_omega_dt, cos_omega_dt = np.sin(omega * dt), np.cos(omega * dt)\n        if isinstance(self.metric, matrices.ScaledIdentityMatrix):\n            state.pos = cos_omega_dt * state.pos + (sin_omega_dt * omega) * state.mom\n            state.mom = cos_omega_dt * state.mom - (sin_omega_dt / omega) * state.pos\n            return\n        eigvec_trans_pos = self.metric.eigvec.T @ state.pos\n", key="fast path"),
+    m("c07-twin-isotropic-fast-path", None, "        sin_omega_dt, cos_omega_dt = np.sin(omega * dt), np.cos(omega * dt)\n        eigvec_trans_pos = self.metric.eigvec.T @ state.pos\n", "        sin_omega_dt, cos_omega_dt = np.sin(omega * dt), np.cos(omega * dt)\n        if isinstance(self.metric, matrices.ScaledIdentityMatrix):\n            pos, mom = state.pos, state.mom\n            state.pos = cos_omega_dt * pos + (sin_omega_dt * omega) * mom\n            state.mom = cos_omega_dt * mom - (sin_omega_dt / omega) * pos\n            return\n        eigvec_trans_pos = self.metric.eigvec.T @ state.pos\n", twin=True),
 ]
